@@ -57,7 +57,12 @@ OPAQUE = {
     "self.get_by_class_name(type_)": ('(Py.Tl.TyS.classOf T type_)', SCHEMAS, False),
     "self.get_by_name(type_)": ('(Py.Tl.TyS.ctorOf T type_)', OPT(SCHEMA), False),
     "self.get_by_name(subtype)": ('(Py.Tl.TyS.ctorOf T subtype)', OPT(SCHEMA), False),
+    # the parser
+    "bin(result.get('mode', result.get('flags'))).replace('0b', '')[::-1]": ('Py.Tl.maskOf? T result', STR, True),
+    "schema is not None and schema.name in self.untouchables and (field in self.untouchables[schema.name])":
+        ('(Py.Tl.untouchable T schema field = true)', PROP, False),
 }
+NAME_LITERALS = {'_': 'Py.Tl.pseudoKey'}
 
 # methods whose text is part of the declared interface (compared literally, docstrings removed)
 EXPECTED = {
@@ -78,15 +83,26 @@ REC = {
     'serialize': dict(params=[('schema', OPT(SCHEMA)), ('data', DYN), ('boxed', BOOL)], defaults={'boxed': ast.Constant(value=True)}, ret=BYTES),
     'serialize_field': dict(params=[('type_', TYS), ('value', DYN)], defaults={}, ret=BYTES),
 }
+_DESER = dict(params=[('data', BYTES), ('boxed', BOOL), ('args', OPT(ARGS))], defaults={'boxed': ast.Constant(value=True), 'args': ast.Constant(value=None)}, ret='Pair')
+# `deserialize_pseudo` = the call `self.deserialize(data, False, {'_': subtype})` for one element of a vector of a base type: the same
+# method, a separate function parameter so that the caller can run it WITHOUT spending a unit of the depth budget
+REC_D = {'deserialize': _DESER, 'deserialize_pseudo': _DESER}
+
+
+def rec_variant(e, name):
+    if name == 'deserialize' and len(e.args) == 3 and isinstance(e.args[2], ast.Dict):
+        return 'deserialize_pseudo'
+    return name
 
 HEAD = f"""/- GENERATED by harness/translate/tlengine.py (pydyn.py on pyobj.py) from the current source of
-   {SRC} (TlSchemas.base_types, TlSchema.little_id, TlSchemas.serialize_field / serialize) and
+   {SRC} (TlSchemas.base_types, TlSchema.little_id, TlSchemas.serialize_field / serialize / deserialize) and
    {BLOCK_SRC} (BlockIdExt.__init__ / to_bytes / from_bytes / __eq__ / __hash__); do not edit.
    `none` = the Python code raises.  `T` = the schema table; a schema object = a `Ctor` of it; a type string = its classification
    `Py.Tl.TyS`; a dynamically typed value = `Val`; `rec_<m>` = the method `self.<m>` at the depth budget the caller provides. -/
 import TonVerif.PyInt
 import TonVerif.PyBytes
 import TonVerif.PyObj
+import TonVerif.PyDict
 import TonVerif.PyTl
 import TonVerif.Model.Tl
 set_option linter.unusedVariables false
@@ -102,6 +118,17 @@ def serializeFieldAt (T : Table) (ser : Option Ctor → Val → Bool → Option 
 def serializeF (T : Table) : Nat → Option Ctor → Val → Bool → Option Bytes
   | 0 => fun _ _ _ => none
   | fuel+1 => serialize T (serializeFieldAt T (serializeF T fuel))
+"""
+
+KNOT_D = """/-- `schemas.deserialize(data, boxed, args)` with recursion depth budget `fuel` (one unit per nested `deserialize` call; the call through
+the one-field pseudo schema `{'_': subtype}` for an element of a vector of a base type runs at the SAME depth: it reads one value of a base
+type) and the iteration budget `len(data) + 2 + slack` for the re-parse `while` loop of every level -/
+def deserializeF (T : Table) (auto : Bool) (slack : Nat) : Nat → Bytes → Bool → Option (List Arg) → Option (Val × Nat)
+  | 0 => fun _ _ _ => none
+  | fuel+1 => fun data boxed args =>
+    deserialize T (deserializeF T auto slack fuel)
+      (deserialize T (deserializeF T auto slack fuel) (fun _ _ _ => none) (data.length + 2 + slack) auto)
+      (data.length + 2 + slack) auto data boxed args
 """
 
 
@@ -145,6 +172,12 @@ def hook_lookup(tr, e):
         if t == NAME:
             return f'(T.byName {v})', OPT(SCHEMA)
         raise Untranslatable(f'get_by_name of a {t}')
+    if (isinstance(f, ast.Attribute) and pyobj.is_self(f.value) and f.attr == 'get_by_id' and len(e.args) == 2 and not e.keywords
+            and isinstance(e.args[1], ast.Constant) and e.args[1].value == 'little'):
+        v, t = tr.expr(e.args[0])
+        if t != BYTES:
+            raise Untranslatable(f'get_by_id of a {t}')
+        return f'(Py.Tl.byIdLE T {v})', OPT(SCHEMA)
     if (isinstance(f, ast.Attribute) and f.attr == 'little_id' and not e.args and not e.keywords):
         base = tr.expr(f.value)
         if base[1] in (SCHEMA, OPT(SCHEMA)):
@@ -240,7 +273,30 @@ def translate_all():
         if info['rec'] != [f'rec_{n}' for n in REC if n in want_rec] or [s for s in info['sig'] if s[0] == 'attr']:
             raise Untranslatable(f'{name}: calls {info["rec"]} / reads attributes {[s[1] for s in info["sig"] if s[0] == "attr"]}: not the declared recursion scheme')
         defs.append((name, info['text']))
+    defs += translate_deserialize(prog, schemas)
     return defs
+
+
+def translate_deserialize(prog, schemas):
+    """TlSchemas.deserialize: the loop bodies and the statements reached on two paths become separate definitions"""
+    fn = _method(schemas, 'deserialize')
+    if [a.arg for a in fn.args.args[1:]] != ['data', 'boxed', 'args']:
+        raise Untranslatable('deserialize: parameters')
+    if [ast.unparse(d) for d in fn.args.defaults] != ['True', 'None']:
+        raise Untranslatable('deserialize: default arguments are not the declared ones')
+    iface = dict(context=[('T', 'Table')], opaque=OPAQUE, type_literals=TYPE_LITERALS, name_literals=NAME_LITERALS, rec=REC_D, rec_variant=rec_variant,
+                 skip=skip_stmt, calls=[hook_lookup], schema_attrs={'name': ('name', NAME), 'args': ('args', ARGS)}, lift=True,
+                 locals={'schema': OPT(SCHEMA)})
+    tr = DTr(prog, 'TlSchemas', 'TlSchemas', fn, [BYTES, BOOL, OPT(ARGS)], 'deserialize', iface)
+    info = tr.translate()
+    if info['ret'] != 'Pair':
+        raise Untranslatable(f'deserialize returns a {info["ret"]}')
+    if info['common'] != DESER_COMMON:
+        raise Untranslatable(f'deserialize: uses {info["common"]}, declared {DESER_COMMON}')
+    return info['lifted'] + [('deserialize', info['text'])]
+
+
+DESER_COMMON = ['T', 'rec_deserialize', 'rec_deserialize_pseudo', 'while_fuel', 'self__auto_deserialize']
 
 
 # ---- block.py: BlockIdExt (declared: workchain / shard / seqno are ints, root_hash / file_hash are bytes; an object = Model.Tl.BlockIdExt)
@@ -341,6 +397,7 @@ def generate(old=None):
     for name, text in defs:
         out += [f'-- BEGIN {name}', text.rstrip('\n'), f'-- END {name}', '']
     out += ['-- BEGIN knot', KNOT.rstrip('\n'), '-- END knot', '']
+    out += ['-- BEGIN knot_deserialize', KNOT_D.rstrip('\n'), '-- END knot_deserialize', '']
     out += [f'/-! ### {BLOCK_SRC}: BlockIdExt (an object = `Model.Tl.BlockIdExt`; `H` = Python\'s hash of the 5-tuple) -/', 'namespace Block', 'open TonVerif.Model.Tl', '']
     for name, text in bdefs:
         out += [f'-- BEGIN {name}', text.rstrip('\n'), f'-- END {name}', '']
@@ -451,6 +508,17 @@ def run1 (w : String) : String :=
         | some a => same (serializeFieldAt table (serializeF table gfuel) ⟨none, a.vec, a.ty⟩ val) (serArg table (serObj table gfuel) a val)
         | none => "bad")
       | _, _, _ => "bad")
+  | ["des", d, auto] => (match hexArg d with
+      | some bs => (match deserializeF table (auto == "1") 0 gfuel bs true none with
+        | some (v, n) => s!"ok {showVal v} {n}"
+        | none => "err")
+      | none => "bad")
+  | ["ddes", d, auto] => (match hexArg d with
+      | some bs =>
+        let a := (deserializeF table (auto == "1") 0 gfuel bs true none).map fun (v, n) => s!"{showVal v} {n}"
+        let b := (Model.Tl.deserialize table (auto == "1") gfuel bs).map fun (v, n) => s!"{showVal v} {n}"
+        if a == b then "same" else "DIFF"
+      | none => "bad")
   | ["btb", w, sh, q, r, f] => (match w.toInt?, sh.toInt?, q.toInt?, hexArg r, hexArg f with
       | some w, some sh, some q, some r, some f => showB (Block.to_bytes f r q sh w)
       | _, _, _, _, _ => "bad")
@@ -512,6 +580,26 @@ def validation_cases(W=None):
         for r in range(2 if k % 3 else 3):
             v = V.gen_obj(W, rng, c, 0, {'depth': 2, 'big': False, 'lens': [0, 1, 3, 4, 253, 254, 255, 300]})
             out.append((f'ser:{c["idx"]}:{V.tok_obj(W, c, v)}', lambda c=c, v=v: W.lib.serialize(W.lib.list[c['idx']], copy.deepcopy(v))))
+    # the parser: the serialisations of these values, whole / followed by other bytes / cut / with one byte changed, both modes
+    k = 0
+    for w, thunk in list(out):
+        k += 1
+        try:
+            ser = thunk()
+        except Exception:
+            continue
+        variants = [(ser, 0), (ser, 1)]
+        if k % 2 == 0:
+            variants.append((ser + b'\x01\x02\x03', k % 4 // 2))
+        if k % 3 == 0 and len(ser) > 4:
+            variants.append((ser[:4 + rng.randrange(len(ser) - 4)], k % 2))
+        if k % 5 == 0 and len(ser) > 4:
+            j = rng.randrange(4, len(ser))
+            variants.append((ser[:j] + bytes([ser[j] ^ (1 << rng.randrange(8))]) + ser[j + 1:], k % 2))
+        for d, auto in variants:
+            out.append((f'des:{d.hex() or "-"}:{auto}', lambda d=d, auto=auto: lib_deserialize(W, d, auto), 'des'))
+    for d in (b'', b'\x01', b'\x00' * 4, b'\xff' * 8):
+        out.append((f'des:{d.hex() or "-"}:1', lambda d=d: lib_deserialize(W, d, 1), 'des'))
     seen = set()
     for c in W.ctors:
         for j, a in enumerate(c['args']):
@@ -555,6 +643,15 @@ def validation_cases(W=None):
     return W, out
 
 
+def lib_deserialize(W, d, auto):
+    old = W.lib._auto_deserialize
+    W.lib._auto_deserialize = bool(auto)
+    try:
+        return W.lib.deserialize(d)
+    finally:
+        W.lib._auto_deserialize = old
+
+
 def validate():
     """Differential validation of the TRANSLATOR: the regenerated engine, evaluated by Lean over the regenerated table, must give what the
     library gives (bytes, or raise) on type-directed values of every covered constructor and on ill-typed values of every kind of field.
@@ -566,6 +663,25 @@ def validate():
         return f'validation: the regenerated definition could not be evaluated: {type(e).__name__}: {e}', 0
     for case, g in zip(cases, got):
         w, thunk = case[0], case[1]
+        if len(case) > 2 and case[2] == 'des':
+            from ..gen import tlvals as V
+            try:
+                val, n = thunk()
+            except RecursionError:
+                continue
+            except Exception:
+                val = n = None
+            try:
+                if g == 'err':
+                    ok = val is None
+                else:
+                    t, cn = g[3:].rsplit(' ', 1)
+                    ok = val is not None and int(cn) == n and V.same(V.parse_tok(W, t), val)
+            except Exception:
+                ok = False
+            if not ok:
+                return f'validation: on {w[:300]} Lean computes "{g[:160]}", the library computes "{str((val, n))[:160]}"', len(cases)
+            continue
         try:
             pv = 'ok' + (thunk().decode() if len(case) > 2 else thunk().hex())
         except RecursionError:
@@ -578,17 +694,30 @@ def validate():
 
 
 def diff_values(ctx, W, pairs):
-    """For harness search mode: pairs = [(constructor, value)] -> those on which the regenerated serialiser and the hand model differ
+    """For harness search mode: pairs = [(constructor, value)] -> those on which the regenerated serialiser and the hand model differ, or
+    on whose serialisation (whole / followed by other bytes, both modes) the regenerated PARSER and the hand-model parser differ
     (evaluated by Lean; needs only Generated/TlEngine.lean and the driver modules, not the proofs).  Never raises."""
+    import copy
     from ..gen import tlvals as V
     try:
-        words = [f'dser:{c["idx"]}:{V.tok_obj(W, c, v)}' for c, v in pairs]
+        words, owner = [], []
+        for k, (c, v) in enumerate(pairs):
+            words.append(f'dser:{c["idx"]}:{V.tok_obj(W, c, v)}')
+            owner.append(k)
+            try:
+                ser = W.lib.serialize(W.lib.list[c['idx']], copy.deepcopy(v))
+            except Exception:
+                continue
+            for d, auto in ((ser, 0), (ser, 1), (ser + b'\x01\x02\x03\x04\x05', 0)):
+                words.append(f'ddes:{d.hex() or "-"}:{auto}')
+                owner.append(k)
         got = lean_eval(words)
     except Exception as e:
         ctx.notes.append(f'source-diff search (TlEngine) failed: {type(e).__name__}: {str(e)[:200]}')
         return []
-    found = [p for p, g in zip(pairs, got) if g == 'DIFF']
-    ctx.notes.append(f'source-diff search: regenerated TL serialiser vs hand model on {len(pairs)} values: ' +
+    hit = sorted({k for k, g in zip(owner, got) if g == 'DIFF'})
+    found = [pairs[k] for k in hit]
+    ctx.notes.append(f'source-diff search: regenerated TL serialiser and parser vs hand model on {len(pairs)} values ({len(words)} evaluations): ' +
                      (f'{len(found)} differ, e.g. ' + '; '.join(f'{c["name"]} {str(v)[:80]}' for c, v in found[:3]) if found else 'no differing value'))
     return found
 
